@@ -92,6 +92,8 @@ def witness_search(prop, f, timeout=120):
     if _TIER == "thorough":
         os.environ["VREPLAY_DEEP"] = "1"   # deeper bounds in every search (replay/src/*.rs: util::deep())
         timeout = max(timeout, 900)
+    if prop in ENGINE_PROPS:
+        return engine_search(prop, timeout)
     rc, out, err = sh([REPLAY_BIN, "search", prop, f["site_item"] or "", f["clause"] or ""], timeout=timeout)
     ws = []
     for ln in out.splitlines():
@@ -112,6 +114,26 @@ def witness_search(prop, f, timeout=120):
     if rc not in (0, 1):
         return ws, "witness search failed rc=%d %s" % (rc, err[-300:])
     return ws, ""
+
+
+# properties whose observation is an executing engine: the replay binary produces statements + catalogue / result queries, python's
+# sqlite3 (a real SQLite engine) executes them (vlib/engine.py)
+ENGINE_PROPS = ("C13",)
+ENGINE_STATS = {}
+
+
+def engine_search(prop, timeout=300, only_label=None):
+    from . import engine
+    rc, out, err = sh([REPLAY_BIN, "engine-cases", prop], timeout=timeout)
+    if rc != 0:
+        return [], "vreplay engine-cases failed rc=%d %s" % (rc, err[-300:])
+    lines = out.splitlines()
+    if only_label is not None:
+        lines = [ln for ln in lines if ln.startswith("CASE ") and json.loads(ln[5:]).get("label") == only_label]
+    ws, n, nq = engine.run_cases(lines, prop)
+    ENGINE_STATS[prop] = {"cases": n, "statements_and_queries": nq}
+    import sqlite3
+    return ws, "%d cases (%d statements / catalogue queries) executed on SQLite %s" % (n, nq, sqlite3.sqlite_version)
 
 
 def write_replay(prop, n, f, witnesses, note, unit_path):
@@ -474,6 +496,17 @@ def replay(prop, path):
     if not ok:
         print("UNDECIDED replay crate does not build: " + err[-400:])
         return 2
+    if prop in ENGINE_PROPS:
+        label = json.load(open(path)).get("input")
+        if not label:
+            print("REPLAY: nothing to re-run (no concrete input in file)")
+            return 0
+        ws, note = engine_search(prop, only_label=label)
+        if ws:
+            print("REPLAY: still fails: %s" % json.dumps(ws[0]))
+            return 1
+        print("REPLAY: input no longer fails (%s)" % note)
+        return 0
     rc, out, err = sh([REPLAY_BIN, "replay", path], timeout=300)
     print(out.strip())
     return rc
